@@ -28,6 +28,7 @@ class Fn:
         attrs=(),
         loop_open=None,
         at_end=None,
+        final_guards=0,
     ):
         self.file = file
         self.path = path if isinstance(path, list) else [p.strip() for p in path.split("::")]
@@ -52,6 +53,8 @@ class Fn:
         # ghost snapshots / assertions placed at the start of the body of loop #k
         self.loop_open = loop_open or {}
         self.at_end = at_end
+        # R10: number of `P if G => A, _ => B` shapes to desugar
+        self.final_guards = final_guards
 
 
 class Type:
@@ -126,6 +129,9 @@ def emit(unit):
             rx = len(s) > 3 and s[3] == "re"
             rw.subst(old, new, cnt, regex=rx)
         if isinstance(it, Fn):
+            for _ in range(getattr(it, "final_guards", 0)):
+                if not rw.desugar_final_guard():
+                    raise ExtractError("%s: R10 requested but no `P if G => A, _ => B` shape found" % label)
             if it.let_chains:
                 rw.desugar_let_chains()
                 if "R8" not in rw.rules:
